@@ -100,6 +100,7 @@ def r1_never_raises(ctx, sym):
                               "the traversal runs although the parse failed", "a second system error")
     ctx.floor('R1', 'process_code scenarios', n, 25)
     line_offset_rule(ctx, sym, 'R1')
+    borrowed_position_rule(ctx, sym, 'R1')
 
 
 def r1c_constants_complete(ctx, sym):
@@ -213,6 +214,42 @@ def line_offset_rule(ctx, sym, rule):
                   "the issue belongs on line %d" % (fname or 'the main file', lines, '' if raised is None else
                                                     ' (raises %s)' % raised.kind, want, 5 + want),
                   "TIFA lines ignore the active section")
+
+
+def borrowed_position_rule(ctx, sym, rule):
+    """Tifa.fill_in_location executed abstractly (a comprehension clause has no position of its own and borrows that of
+    the enclosing expression), with a section offset in force: locating the clause afterwards gives the same line as
+    locating the expression - the offset is applied once."""
+    from .. import symexec
+    mod = ctx.repo.module(VISITOR)
+    fn = mod.func('Tifa.fill_in_location')
+    ctx.analysed_function(mod, fn)
+    for offset in (0, 4):
+        source = Obj('ast.ListComp', lineno=6, col_offset=8, end_lineno=7, end_col_offset=30)
+        clause = Obj('ast.comprehension')
+        me = symexec.self_obj(mod, 'Tifa', line_offset=offset, node_chain=[source], final_node=None)
+        fd = symexec.new_fd(sym, mod, calls={
+            'Location': lambda line=None, col=None, *a, **k: Obj('Location', line=line, col=col)})
+        _, raised = symexec.run(fd, fn, [clause, source], bound_self=me, what='Tifa.fill_in_location')
+        where = []
+        if raised is None:
+            for n_ in (source, clause):
+                try:
+                    loc = fd.call_method(me, 'locate', [n_])
+                    where.append((loc.attrs.get('line'), loc.attrs.get('col')) if isinstance(loc, Obj) else loc)
+                except Raised as e:
+                    where.append('raises %s' % e.kind)
+                except Inconclusive as e:
+                    raise AnalysisError("locate is outside the decidable fragment: %s" % e)
+        ok = raised is None and len(where) == 2 and where[0] == where[1] == (6 + offset, 8) and \
+            source.attrs.get('lineno') == 6
+        ctx.check(ok, rule, 'tifa:fill_in_location[offset %d]' % offset, mod, fn,
+                  "with a section offset of %d, an expression on line 6 is located at %r and the comprehension clause "
+                  "that borrowed its position at %r%s" % (offset, where[0] if where else None,
+                                                         where[1] if len(where) > 1 else None,
+                                                         '' if raised is None else ' (raises %s)' % raised.kind),
+                  "independent sections: an undefined name in `[x for x in data]` of section 2 is reported with the "
+                  "section offset added twice")
 
 
 def locate_positionless_rule(ctx, sym, rule):
